@@ -131,11 +131,9 @@ theorem gen_hp_shrink (k : Kind) (c : Cfg) (f : Gen.hashDictionary) (h : DictWF 
       else ({ ofDict k c f with buf := rb, dict := .single ((ofHash f.hash).shiftOffsets d) }, d) := by
     simp only [Parser.shrink, ofDict, hr]
   rw [hps]
+  -- the test `delta > 0` (or `delta <= 0` with an early return): one arm is contradictory
   by_cases hd : d = 0
   · subst hd
-    have : ¬ ((0 : Nat) : Int) > 0 := by omega
-    simp only [this, if_false, bind_ok, if_true]
-    refine ⟨_, rfl, ?_, ⟨hwf, hh⟩⟩
     have hrb : rb = ofPB f.ParserBuffer := by
       have e : rb = (PBuf.shrink (ofPB f.ParserBuffer)).1 := by rw [hr]
       have e2 : (PBuf.shrink (ofPB f.ParserBuffer)).2 = 0 := by rw [hr]
@@ -143,12 +141,21 @@ theorem gen_hp_shrink (k : Kind) (c : Cfg) (f : Gen.hashDictionary) (h : DictWF 
       split
       · rfl
       · rename_i hn; rw [if_neg hn] at e2; simp only at e2; omega
-    simp only [ofDict, hof, hrb]
-  · have : ((d : Nat) : Int) > 0 := by omega
-    obtain ⟨g', hg, hofg, hwg⟩ := gen_hash_shiftOffsets f.hash (UInt32.ofInt (d : Int)) hh
-    simp only [this, if_true, hg, bind_ok, hd, if_false]
-    refine ⟨_, rfl, ?_, ⟨hwf, hwg⟩⟩
-    simp only [ofDict, hof, hofg, toNat_ofInt32_small d hdlt]
+    simp only [if_true]
+    split
+    all_goals first
+      | (exfalso; omega)
+      | ((try simp only [bind_ok])
+         refine ⟨_, rfl, ?_, ⟨hwf, hh⟩⟩
+         simp only [ofDict, hof, hrb])
+  · obtain ⟨g', hg, hofg, hwg⟩ := gen_hash_shiftOffsets f.hash (UInt32.ofInt (d : Int)) hh
+    simp only [hd, if_false]
+    split
+    all_goals first
+      | (exfalso; omega)
+      | (simp only [hg, bind_ok]
+         refine ⟨_, rfl, ?_, ⟨hwf, hwg⟩⟩
+         simp only [ofDict, hof, hofg, toNat_ofInt32_small d hdlt])
 
 /-! ## P01 init -/
 
